@@ -62,21 +62,31 @@ CONTROLS = {
         ("reversed group offset with the unreversed sign", O, "\t\tgroup_delta_ = (group.is_reversed) ? -delta : delta;", "\t\tgroup_delta_ = delta;", "OFFSET.sign"),
         ("round-join step values computed once and carried to the next group", O, "\t\tsteps_per_rad_ = steps_per_360 / (2 * PI);\n\t}",
          "\t\tif (steps_per_rad_ <= 0.0) steps_per_rad_ = steps_per_360 / (2 * PI);\n\t}", "LOOP"),
+        ("Paths64 Execute no longer clears the tree target", O, "\tsolution = &paths64;\n\tsolution_tree = nullptr;", "\tsolution = &paths64;", "TARGET.set"),
     ],
     "C19": [
         ("quads not normalised", H + "clipper.minkowski.h", "          if (!IsPositive(quad))\n            std::reverse(quad.begin(), quad.end());\n", "", "MINK.orientation"),
         ("closing edge swept for open paths", H + "clipper.minkowski.h", "      size_t delta = isClosed ? 0 : 1;", "      size_t delta = 0;", "MINK.closing-edge"),
+        ("sum computed with the operands exchanged", H + "clipper.minkowski.h", "      if (patLen == 0 || pathLen == 0) return Paths64();\n", "      if (patLen == 0 || pathLen == 0) return Paths64();\n      if (isSum && pathLen > patLen) return Minkowski(path, pattern, true, isClosed);\n", "MINK.roles"),
     ],
     "C07": [
         ("delta used without abs for open paths", O, "group_delta_ = std::abs(delta_);// *0.5;", "group_delta_ = delta_;", "DELTA.abs-only"),
         ("end cap differs from start cap", O, "DoBevel(path, highI, highI);", "DoSquare(path, highI, highI);", "CAP.table"),
         ("end type override leaks into later paths", O, "\t\tend_type_ = group.end_type; // the override below is for this path only\n", "", "LOOP"),
+        ("closing vertex stripped for open end types too", O, "\tfor (Path64& p: paths_in)\n\t  StripDuplicates(p, is_joined);", "\tfor (Path64& p: paths_in)\n\t  StripDuplicates(p, true);", "GROUP.strip-closed"),
     ],
     "C08": [
         ("Contains made strict on the right", H + "clipper.core.h", "      return rec.left >= left && rec.right <= right &&",
          "      return rec.left >= left && rec.right < right &&", "T.rect"),
         ("start_locs_ not cleared per path", R, "      for (OutPt2List &edge : edges_) edge.clear();\n      start_locs_.clear();\n    }\n    return result;",
          "      for (OutPt2List &edge : edges_) edge.clear();\n    }\n    return result;", "LOOP"),
+    ],
+    "C09": [
+        ("a point above the rectangle classified as below it", R, "    else if (pt.y < rec.top) loc = Location::Top;", "    else if (pt.y < rec.top) loc = Location::Bottom;", "T.location"),
+        ("a point on the bottom edge right of the rectangle counts as on the edge", R, "    else if (pt.y == rec.bottom && pt.x >= rec.left && pt.x <= rec.right)", "    else if (pt.y == rec.bottom && pt.x >= rec.left)", "T.location"),
+        ("leaving the rectangle starts a new piece", R, "      else // path must be exiting rect\n      {\n        Add(ip);\n      }", "      else // path must be exiting rect\n      {\n        Add(ip, true);\n      }", "T.lines-dispatch"),
+        ("pass-through takes both crossings from the same end", R, "        crossing_loc = prev;\n        GetIntersection(rect_as_path_,\n          prev_pt, path[i], crossing_loc, ip2);", "        crossing_loc = prev;\n        GetIntersection(rect_as_path_,\n          path[i], prev_pt, crossing_loc, ip2);", "T.lines-dispatch"),
+        ("results_ not cleared per polyline", R, "          result.emplace_back(std::move(tmp));\n      }\n      results_.clear();\n\n      op_container_ = std::deque<OutPt2>();", "          result.emplace_back(std::move(tmp));\n      }\n\n      op_container_ = std::deque<OutPt2>();", "CLEAN"),
     ],
     "C10": [
         ("empty path reaches OffsetOpenPath again", O, "\t\tif (pathLen == 0) continue; // nothing to offset (and no vertex to index)\n", "", "GUARD.nonempty"),
@@ -127,6 +137,8 @@ CONTROLS = {
          "    if (path.size() == 3 && IsVerySmallTriangle(*op2)) return false;\n    return true;", "SIBLING.64-D"),
     ],
     "C17": [
+        ("Z written by value conversion, read by bit copy", H + "clipper.export.h", "      *v++ = pt.x * scale;\n      *v++ = pt.y * scale;\n#ifdef USINGZ\n      *v++ = Reinterpret<double>(pt.z);",
+         "      *v++ = pt.x * scale;\n      *v++ = pt.y * scale;\n#ifdef USINGZ\n      *v++ = static_cast<double>(pt.z);", "LAYOUT.z-codec"),
         ("reader skips one header element only", H + "clipper.export.h", "    size_t cnt2 = static_cast<size_t>(*v);\n    v += 2; \n    Path<T> path;",
          "    size_t cnt2 = static_cast<size_t>(*v);\n    v += 1; \n    Path<T> path;", "LAYOUT.paths"),
         ("reverse_solution in the preserve_collinear slot again", H + "clipper.export.h",
@@ -137,6 +149,7 @@ CONTROLS = {
         ("partial sum can wrap", H + "clipper.core.h", "    const uint64_t x2 = hi(a) * lo(b) + hi(x1);", "    const uint64_t x2 = hi(a) * lo(b) + x1;", "P.multiply-no-wrap"),
     ],
     "C20": [
+        ("corner test against the raw previous vertex", H + "clipper.h", "      if (!IsCollinear(*prevIt, *srcIt, *(srcIt + 1)))", "      if (!IsCollinear(*(srcIt - 1), *srcIt, *(srcIt + 1)))", "TRIM.last-kept"),
         ("SimplifyPath emits a computed vertex", H + "clipper.h", "      if (!flags[i]) result.emplace_back(path[i]);", "      if (!flags[i]) result.emplace_back(MidPoint(path[i], path[i]));", "MEMBER"),
     ],
 }
